@@ -106,6 +106,32 @@ def interrupted_build(cat, b):
         trees_mod.BinnedTrees.build = classmethod(orig)
 
 
+def strip_world(ctx, base) -> None:
+    """A strip of six small patches measured with physical scales at high and at low redshift: which patch pairs are
+    linked differs between the two configurations (same catalogs, same scales), so nothing derived from an earlier
+    measurement may be reused for the later one."""
+    src = cw.strip_make(base / "strip_src")
+    ref = cw.strip_fresh_process(src, list(cw.STRIP_CONFIGS), base)
+    for k, v in ref.items():
+        ctx.require(isinstance(v, dict), f"strip world: reference measurement {k} failed in a fresh process: {str(v)[:300]}")
+    ctx.require(ref["hi"] != ref["lo"], "strip world: configurations do not differ (vacuous)")
+    for hi_, h in enumerate((["hi", "lo"], ["lo", "hi"], ["hi", "hi", "lo", "hi"], ["lo", "hi", "lo"])):
+        work = base / f"strip_work{hi_}"
+        for which in ("data", "rnd"):
+            data.copy_cache(src / which, work / which)
+        ctx.evaluated(1, ("strip", tuple(h)))
+        ctx.validated(1)
+        for si, name in enumerate(h):
+            try:
+                got = cw.strip_measure(work, name)
+            except Exception as exc:  # noqa: BLE001
+                ctx.violation(f"C07|measure|strip_of_small_patches|history_raises_{type(exc).__name__}", dict(history=h, step=si, error=repr(exc)[:300]))
+                break
+            if got != ref[name]:
+                ctx.violation("C07|measure|after_same_scales_at_other_redshift|result_differs_from_fresh_cache", dict(history=h, step=si, configuration=name))
+                break
+
+
 def run(ctx) -> None:
     yaw = data.import_yaw()
     rng = random.Random(ctx.seed)
@@ -274,4 +300,5 @@ def run(ctx) -> None:
                     ctx.drift("C07|reuse_decision_differs_from_model", dict(history=h, step=si, model_reuse=reuse, real_rebuilt=rebuilt))
             if hi < 3:
                 ctx.sample(dict(history=[f"{op}({b}{',force' if f else ''})" for op, b, f in h]))
+        strip_world(ctx, base)
     ctx.extra["histories"] = len(hist)
